@@ -80,7 +80,13 @@ fn gen_stream(stream: &str, n: u64, seed: u64) {
             let ill = r.chance(1, 4); let mut e = if r.chance(1, 2) { tree::gen_opt_tree(&mut r, depth, false) } else { gen::gen_tree(&mut r, depth, ill) }; if r.chance(1, 4) { gen::add_repeats(&mut r, &mut e); } writeln!(w, "chkvf {} {}", d.show(), show_expr(&e)).unwrap(); },
         "chkbool" => for _ in 0..n { let d = gen::gen_env(&mut r); let depth = 1 + r.below(3) as u32;
             let ill = r.chance(1, 4); let mut e = if r.chance(1, 2) { tree::gen_opt_tree(&mut r, depth, ill) } else { gen::gen_tree(&mut r, depth, ill) }; if r.chance(1, 3) { gen::add_repeats(&mut r, &mut e); } writeln!(w, "chkbool {} {}", d.show(), show_expr(&e)).unwrap(); },
-        "json" => for _ in 0..n { let depth = r.below(4) as u32; let e = match r.below(3) { 0 => lang::gen_src_tree(&mut r, depth), 1 => tree::gen_opt_tree(&mut r, depth, true), _ => gen::gen_tree(&mut r, depth, true) };
+        "json" => for i in 0..n { let depth = r.below(4) as u32;
+            if i % 40 == 7 { let mut v = slac::Value::Array(vec![slac::Value::Number(*r.pick(&[f64::NAN, f64::INFINITY, f64::NEG_INFINITY])), slac::Value::Number(2.0)]);
+                for _ in 0..r.below(4) { v = slac::Value::Array(if r.chance(1, 2) { vec![v] } else { vec![slac::Value::Boolean(true), v] }); }
+                let l = slac::Expression::Literal { value: v };
+                let e = if r.chance(1, 2) { l } else { slac::Expression::Array { expressions: vec![l, slac::Expression::Literal { value: slac::Value::Array(vec![]) }] } };
+                writeln!(w, "json {}", show_expr(&e)).unwrap(); continue; }
+            let e = match r.below(3) { 0 => lang::gen_src_tree(&mut r, depth), 1 => tree::gen_opt_tree(&mut r, depth, true), _ => gen::gen_tree(&mut r, depth, true) };
             writeln!(w, "json {}", show_expr(&e)).unwrap(); },
         // `call` / `call:<name>[,<name>…]`: n argument lists per selected builtin
         st if st == "call" || st.starts_with("call:") || st == "rep" || st.starts_with("rep:") => {
@@ -114,13 +120,21 @@ fn gen_stream(stream: &str, n: u64, seed: u64) {
             for i in -2000i64..=2000 { writeln!(w, "mathlaw int {}", i).unwrap(); }
             for d in -40i64..=40 { for b in [1i64 << 53, 1 << 52, 1 << 31, 1 << 32, 1 << 62, 1000000] { writeln!(w, "mathlaw int {}", b + d).unwrap(); writeln!(w, "mathlaw int {}", -b + d).unwrap(); } }
             for _ in 0..n { writeln!(w, "mathlaw int {}", (r.next() as i64) >> r.below(64)).unwrap();
-                let x = gen::gen_num(&mut r); let y = gen::gen_num(&mut r); writeln!(w, "mathlaw num {:016x} {:016x}", x.to_bits(), y.to_bits()).unwrap(); } }
+                // half of the doubles are ORDINARY decimals (95.97, 141.73, -3.125): where a hand-written shortcut for a library function is off by one ulp
+                let ordinary = |r: &mut rng::Rng| (r.below(40_000_000) as f64) / (*r.pick(&[100.0, 1000.0, 7.0, 10000.0, 3.0])) - (if r.chance(1, 4) { 1000.0 } else { 0.0 });
+                let x = if r.chance(1, 2) { ordinary(&mut r) } else { gen::gen_num(&mut r) }; let y = if r.chance(1, 3) { ordinary(&mut r) } else { gen::gen_num(&mut r) };
+                writeln!(w, "mathlaw num {:016x} {:016x}", x.to_bits(), y.to_bits()).unwrap(); } }
         "poslaw" => for _ in 0..n {
             let s: String = match r.below(3) { 0 => gen::gen_str(&mut r), _ => { let k = r.below(9); (0..k).map(|_| *r.pick(&['a', 'b', 'ä', 'ß', '𝄞', 'c', ' ', 'e', '\u{301}', 'Σ', '1'])).collect() } };
             let cs: Vec<char> = s.chars().collect();
             let x: String = if r.chance(2, 3) && !cs.is_empty() { let a = r.usize(cs.len()); let b = a + r.usize(cs.len() - a + 1); cs[a..b].iter().collect() } else { (0..r.below(3)).map(|_| *r.pick(&['a', 'ä', 'z', '𝄞'])).collect() };
             writeln!(w, "poslaw {} {}", hex(&s), hex(&x)).unwrap(); },
         "sortlaw" => for _ in 0..n { let args = call::gen_args(&mut r, "sort"); if let Some(a @ slac::Value::Array(_)) = args.first() { writeln!(w, "sortlaw {}", show_in(a)).unwrap(); } },
+        "jsonin" => for _ in 0..n { let depth = r.below(3) as u32; let e = if r.chance(1, 2) { lang::gen_src_tree(&mut r, depth) } else { gen::gen_tree(&mut r, depth, true) };
+            let text = serde_json::to_string(&e).unwrap_or_default();
+            writeln!(w, "jsonin {}", hex(&tree::respell_numbers(&mut r, &text))).unwrap(); },
+        // `pairs:<names>`: scripts `[f(args), f(args')]` where args' are only LOOSELY equal to args (1 / true / '1', 0 / -0): two look-alike calls of one builtin in one execute
+        st if st.starts_with("pairs:") => { let names: Vec<&str> = st[6..].split(',').collect(); for _ in 0..n { for name in &names { writeln!(w, "{}", script::gen_pair_line(&mut r, name)).unwrap(); } } }
         "script" => for _ in 0..n { writeln!(w, "{}", script::gen_script_line(&mut r)).unwrap(); },
         "dcall" => { let bs = slac::stdlib::builtins(); for _ in 0..n { for f in &bs { writeln!(w, "{}", call::gen_dcall_line(&mut r, f)).unwrap(); } } }
         "env" => for _ in 0..n { let big = r.chance(1, 10); let len = 1 + r.usize(if big { 200 } else { 20 }); let wide = r.chance(1, 2); writeln!(w, "{}", tree::gen_env_line(&mut r, len, wide)).unwrap(); },
